@@ -268,6 +268,13 @@ func (c *Ctx) Violated(rule, fn, construct, detail string, pos token.Pos) {
 		c.add(Obligation{Rule: rule, Func: fn, Construct: construct, Verdict: "undecided", Detail: "(formula rule, soft) " + detail, Pos: c.P.pos(pos)})
 		return
 	}
+	if strings.HasPrefix(rule, "B-IDX") && c.P.isNewFunction(fn) {
+		// an index site inside a helper that did not exist on the reference tree (typically extracted from a caller
+		// that had established the bound): whether it is in bounds depends on a relation between the helper's
+		// arguments that only its call sites know; what caller facts could prove has been tried already
+		c.add(Obligation{Rule: rule, Func: fn, Construct: construct, Verdict: "undecided", Detail: fn + " is not on the reference list of functions (a new helper); its callers may establish this bound: " + detail, Pos: c.P.pos(pos)})
+		return
+	}
 	if !strings.HasPrefix(rule, "FX-") && !strings.HasPrefix(rule, "L-") && !strings.HasPrefix(rule, "G-COPY") {
 		if h := c.P.newHelperCalledBy(fn); h != "" {
 			c.add(Obligation{Rule: rule, Func: fn, Construct: construct, Verdict: "undecided", Detail: "the function now delegates to " + h + ", which is not on the reference list of functions (baseline_funcs.txt), and this rule does not follow calls into new helpers; without that: " + detail, Pos: c.P.pos(pos)})
@@ -618,4 +625,13 @@ func pname(p *ssa.Parameter) string {
 		}
 	}
 	return p.Name()
+}
+
+// isNewFunction: fn is a repository function that is not on the committed reference list
+func (p *Prog) isNewFunction(fn string) bool {
+	p.newHelperCalledBy("") // loads the list
+	if len(p.baseFuncs) == 0 {
+		return false
+	}
+	return p.byName[fn] != nil && !p.baseFuncs[fn]
 }
